@@ -352,7 +352,11 @@ mod conn {
             let cs: Vec<char> = s.chars().collect();
             let mut i = 0;
             while i < cs.len() {
-                if cs[i] == '@' {
+                if cs[i] == '^' && cs.get(i + 1) == Some(&'_') {
+                    // `^_` stands for a space (ops are whitespace-separated)
+                    out.push(' ');
+                    i += 2;
+                } else if cs[i] == '@' {
                     let mut j = i + 1;
                     while j < cs.len() && cs[j].is_ascii_digit() {
                         j += 1;
@@ -2818,6 +2822,21 @@ mod tconn {
 
     /// does a certificate with these SANs cover `host`?  (reference for the oracle; the generator keeps
     /// to names for which this textbook rule is not in dispute: exact, single-label wildcard, IP SAN)
+    /// The name a TLS stack verifies when it is handed `host`, and the certificate names it will consider -
+    /// the per-library reading of a fully qualified name, measured on the unchanged tree and kept as the reference:
+    /// rustls treats ONE trailing dot as the root label (it verifies, and sends as SNI, the name without it) and
+    /// never matches a certificate name that itself ends in a dot; OpenSSL takes the name exactly as given.
+    /// Anything beyond that (two trailing dots, an inner empty label, ...) is the name as given: not a valid DNS name.
+    pub fn covers_for(lib: &str, names: &str, host: &str) -> bool {
+        if lib == "r" {
+            let stripped = host.strip_suffix('.').unwrap_or(host);
+            let names: Vec<&str> = names.split(';').filter(|n| !n.ends_with('.')).collect();
+            covers(&names.join(";"), stripped)
+        } else {
+            covers(names, host)
+        }
+    }
+
     pub fn covers(names: &str, host: &str) -> bool {
         let host_l = host.to_ascii_lowercase();
         let is_ip = host.parse::<std::net::IpAddr>().is_ok();
@@ -3364,6 +3383,37 @@ fn gen_c19(a: &Args, w: &mut dyn Write) {
     }
     for bad in ["tconn r:s r good n=a.test s=a.test 1", "tconn r:d r good n=a.test s=a.test 1", "tconn r: r good n=a.test s=a.test 1", "tconn x:f r good n=a.test s=a.test 1", "tconn o:f:f r good n=a.test s=a.test 1"] {
         writeln!(w, "{bad}").unwrap();
+    }
+    // (N) the name the connector hands to the TLS library is EXACTLY the request's host name: names that differ from a
+    //     covered name only by trailing dots, an inner empty label, a leading / trailing space (`^_`) or case, and
+    //     the same shapes of a name the certificate does not cover.  One trailing dot is a fully qualified name:
+    //     what each library makes of it is recorded from the unchanged tree (rustls: the name without it, OpenSSL:
+    //     as given); more than one is never a valid name and never a success.
+    let shapes = ["{b}", "{b}.", "{b}..", "{b}...", ".{b}", "{h}..{t}", "^_{b}", "{b}^_", "{B}", "{B}.", "{b}.^_"];
+    let mut ni = 0usize;
+    for lib in ["r", "o"] {
+        for (base, upper, head, tail) in [("localhost", "LOCALHOST", "local", "host"), ("wrong.test", "WRONG.test", "wrong", "test")] {
+            writeln!(w, "case tls-exact-name-{lib}-{base} kind=tlsconn").unwrap();
+            for sh in shapes {
+                // OpenSSL's X509_check_host reads a leading dot as "any sub-domain of": not driven through it (see `partial`)
+                if lib == "o" && sh.starts_with('.') {
+                    continue;
+                }
+                let name = sh.replace("{b}", base).replace("{B}", upper).replace("{h}", head).replace("{t}", tail);
+                for cert in ["localhost", "localhost.", "localhost;localhost.", "other.test;wrong.test"] {
+                    ni += 1;
+                    let tp = tpaths[ni % tpaths.len()];
+                    let srv = if ni % 2 == 0 { "r" } else { "o" };
+                    let slot = if ni % 3 == 0 { format!("#{}", ni % 4) } else { String::new() };
+                    let tag = if ni % 5 == 0 { "t" } else { "s" };
+                    writeln!(w, "tconn {lib}{tp}{slot} {srv} good n={cert} {tag}={name} {}", pay[ni % pay.len()]).unwrap();
+                    if ni % 4 == 0 {
+                        writeln!(w, "tconn {lib}{tp}{slot} {srv} good n={cert} h={name},443 1").unwrap();
+                        writeln!(w, "tconn {lib}{slot} {srv} good n={cert} {tag}={name}:8443 1").unwrap();
+                    }
+                }
+            }
+        }
     }
     // (S) SEVERAL calls on ONE connector service instance (`#<slot>`; `#<slot>c` = on a fresh clone of it), every
     //     order of {name the certificate covers, name it does not cover, syntactically invalid name, covered again}:
@@ -4232,7 +4282,7 @@ fn run_conn_group(rt: &tokio::runtime::Runtime, lines: &[String]) -> GroupOut {
                                 // (from the op text, not read back from the `Host` impl under test)
                                 let hostname = op.host.expected().0;
                                 let is_ip = hostname.parse::<IpAddr>().is_ok();
-                                let covered = op.trusted && tconn::covers(&op.names, &hostname);
+                                let covered = op.trusted && tconn::covers_for(lib, &op.names, &hostname);
                                 // conservative: names every TLS stack accepts (lower-case LDH labels) or IP literals
                                 let plain = is_ip
                                     || (!hostname.is_empty()
@@ -4256,7 +4306,10 @@ fn run_conn_group(rt: &tokio::runtime::Runtime, lines: &[String]) -> GroupOut {
                                         if !covered && !(*lib == "o" && hostname.starts_with('.')) {
                                             t3(format!("TLS connector ({lib}) succeeded for hostname {:?} but the certificate (names {}, trusted issuer: {}) is not valid for it", hostname, op.names, op.trusted));
                                         }
-                                        let want = if is_ip { None } else { Some(hostname.clone()) };
+                                        // the name on the wire is the request's own (rustls: without the root dot of an absolute name)
+                                        let on_wire = if *lib == "r" { hostname.strip_suffix('.').unwrap_or(&hostname).to_string() } else { hostname.clone() };
+                                        let plain = plain || (*lib == "r" && hostname.ends_with('.') && on_wire.split('.').all(|l| !l.is_empty() && l.chars().all(|c| c.is_ascii_lowercase() || c.is_ascii_digit())));
+                                        let want = if is_ip { None } else { Some(on_wire) };
                                         if plain && *sni != want {
                                             t3(format!("server saw SNI {:?}, expected the request's hostname {:?}", sni, want));
                                         }
